@@ -2,6 +2,7 @@
 use crate::{Scenario, Tier};
 pub mod c01;
 pub mod c19;
+pub mod shared;
 
 pub fn sc(prop: &'static str, tier: Tier, name: &str, desc: &str, max_paths: u64, max_secs: u64, run: impl Fn() + 'static) -> Scenario {
     Scenario { name: name.to_string(), prop, tier, desc: desc.to_string(), max_paths, max_secs, run: Box::new(run) }
@@ -11,5 +12,8 @@ pub fn all(seed: u64) -> Vec<Scenario> {
     let mut v = vec![];
     v.extend(c01::scenarios(seed));
     v.extend(c19::scenarios(seed));
+    for p in ["C02", "C03", "C08", "C10"] {
+        v.extend(shared::shared(p, seed));
+    }
     v
 }
